@@ -600,6 +600,18 @@ def p_optional(ctx):
     b.scalar(8)
     ctx.decls.append(A.packet(ctx.uid("C"), b.fields, parent_id=rid, constraints=[A.constraint(k, value=rng.randint(0, 255))]))
     ctx.features.add("inherit")
+    # one flag guarding three optional fields, with both condition values (the flag's encoding is then
+    # derived from several fields: the order in which the generators look at them must not matter)
+    b = Body(ctx)
+    fl = b.flag()
+    b.align()
+    order = [(0, 8), (1, 32), (1, 16)]
+    rng.shuffle(order)
+    for cv, w in order:
+        b.fields.append(A.scalar(ctx.fid(), w, cond=A.constraint(fl, value=cv)))
+    b.scalar(8)
+    ctx.decls.append(A.packet(ctx.uid("P"), b.fields))
+    ctx.features.add("shared_flag")
     for _ in range(rng.randint(3, 5)):
         b = Body(ctx)
         b.maybe_noise(0.4)
